@@ -44,7 +44,8 @@ func (ex *Exec) callFunc(st *State, fr *Frame, c ssa.Instruction, fn *ssa.Functi
 	}
 	// In recover mode callees are executed, not abstracted: what happens after a violated callee
 	// precondition (panic or garbage) decides the property, and only the body knows.
-	if fc := ex.L.Contracts.lookup(fn); fc != nil && !fc.InlineOnly && !(ex.recoverMode && ex.L.isRepoFunc(fn) && fn.Blocks != nil) {
+	inlineAll := ex.topFC != nil && ex.topFC.InlineCalls && ex.L.isRepoFunc(fn) && fn.Blocks != nil
+	if fc := ex.L.Contracts.lookup(fn); fc != nil && !fc.InlineOnly && !inlineAll && !(ex.recoverMode && ex.L.isRepoFunc(fn) && fn.Blocks != nil) {
 		return ex.callContract(st, fr, c, fn, fc, args, bind)
 	}
 	if !ex.L.isRepoFunc(fn) {
